@@ -241,11 +241,13 @@ VH_CMD(coinsel)
         };
         Sel bnb, cg, srd, knap;
         const bool run_bnb = !sffo;
+        std::vector<int> bnb_order; // the offered groups in the order BnB sorted them (it sorts the caller's vector in place)
         if (run_bnb) {
             try {
                 auto p = pool_of(pos);
                 auto r = SelectCoinsBnB(p, target, cost_of_change, max_w);
                 bnb = harvest(r);
+                for (const auto& og : p) bnb_order.push_back(coins[by_op.at(og.m_outputs.at(0)->outpoint)].group);
             } catch (const std::exception& e) {
                 bnb.threw = true;
                 bnb.err = e.what();
@@ -371,6 +373,7 @@ VH_CMD(coinsel)
         validate("knapsack", knap, target, std::nullopt);
 
         // ---- optimality oracle
+        bool bnb_nonopt = false;
         auto sel_groups_metrics = [&](const Sel& s, CAmount& sum, CAmount& wsum, int& w) {
             sum = 0, wsum = 0, w = 0;
             for (int ci : s.coins) {
@@ -390,19 +393,79 @@ VH_CMD(coinsel)
                 vh::log().obs("bnb_bruteforce_compares");
                 if (bnb_feasible && best_waste < waste) {
                     bad = true;
-                    // class of the witness: does the pool offer a group whose inclusion lowers the waste of any selection
-                    // (selection amount + fee - long_term_fee < 0, i.e. a coin worth less than its long-term spending fee)?
-                    // or, with a binding weight limit, two groups of equal selection amount but different weight (the search treats
-                    // equal-amount neighbours as interchangeable and skips the second one)?
-                    bool reducer = false, twins = false;
-                    for (int g : pos) reducer |= groups[g].amount + groups[g].wastepart < 0;
-                    if (max_w < total_w_pos)
-                        for (int g : pos)
-                            for (int h2 : pos) twins |= groups[g].amount == groups[h2].amount && groups[g].weight != groups[h2].weight;
-                    vh::log().violation(reducer ? "bnb-not-optimal-pool-has-waste-reducing-coin" : twins ? "bnb-not-optimal-weight-limit-and-equal-amount-groups-of-different-weight" : "bnb-not-optimal",
+                    bnb_nonopt = true;
+                    // ---- strict classification of the witness (two known mechanisms; anything else stays plain)
+                    // restricted brute force: minimal waste over the subsets of `allowed` (bit i = pos[i]) within window and weight limit wl
+                    auto brute_bnb = [&](uint64_t allowed, int wl, uint64_t* argmin) -> std::optional<CAmount> {
+                        std::optional<CAmount> best;
+                        for (uint64_t m = allowed; m; m = (m - 1) & allowed) {
+                            CAmount sum = 0, ws = 0;
+                            int w = 0;
+                            for (size_t i = 0; i < np; ++i)
+                                if (m >> i & 1) sum += groups[pos[i]].amount, ws += groups[pos[i]].wastepart, w += groups[pos[i]].weight;
+                            if (w > wl || sum < target || sum > target + cost_of_change) continue;
+                            const CAmount wa = ws + (sum - target);
+                            if (!best || wa < *best) {
+                                best = wa;
+                                if (argmin) *argmin = m;
+                            }
+                        }
+                        return best;
+                    };
+                    const uint64_t all_mask = (np == 64) ? ~uint64_t{0} : ((uint64_t{1} << np) - 1);
+                    uint64_t sel_mask = 0, better_mask = 0;
+                    for (int ci : bnb.coins)
+                        for (size_t i = 0; i < np; ++i)
+                            if (pos[i] == coins[ci].group) sel_mask |= uint64_t{1} << i;
+                    brute_bnb(all_mask, max_w, &better_mask);
+                    // Better = all feasible subsets with strictly lower waste than BnB's result. Two mechanism predicates on S in Better:
+                    //  E(S) "extension of an in-window selection": S is still at or above the target without its smallest group. BnB's
+                    //       depth-first search in descending amount order is inside the window before S is complete and shifts there
+                    //       ("adding more UTXOs cannot be better"); below the long-term feerate that is not true for a coin worth less than
+                    //       its long-term spending fee (amount + fee - long_term_fee < 0).
+                    //  N(S) "skipped twin": in BnB's own sorted order, among groups of one amount S does not use a prefix of them; the clone
+                    //       skipping rule never visits such a set. Its prefix-using counterpart has the same sum and no more waste; when that
+                    //       one is not in Better it can only have failed the weight limit.
+                    // key 1: feerate < long-term feerate and every S in Better is E.   key 2 (else): weight limit binding and every S in Better
+                    // is E (at low feerate) or N.   Anything else: plain.
+                    std::vector<size_t> rank_in_order(np, 0); // position of pos[i] in bnb_order
+                    for (size_t i = 0; i < np; ++i)
+                        for (size_t k = 0; k < bnb_order.size(); ++k)
+                            if (bnb_order[k] == pos[i]) rank_in_order[i] = k;
+                    bool class1 = false, class2 = false;
+                    {
+                        bool any = false, all_e = true, all_e_or_n = true;
+                        for (uint64_t m = all_mask; m; m = (m - 1) & all_mask) {
+                            CAmount sum = 0, ws = 0, mn = MAX_MONEY;
+                            int w = 0;
+                            for (size_t i = 0; i < np; ++i)
+                                if (m >> i & 1) sum += groups[pos[i]].amount, ws += groups[pos[i]].wastepart, w += groups[pos[i]].weight, mn = std::min(mn, groups[pos[i]].amount);
+                            if (w > max_w || sum < target || sum > target + cost_of_change) continue;
+                            if (ws + (sum - target) >= waste) continue;
+                            any = true;
+                            const bool e = eff_rate < lt_rate && sum - mn >= target;
+                            bool nn = false;
+                            for (size_t i = 0; i < np && !nn; ++i) {
+                                if (!(m >> i & 1)) continue;
+                                for (size_t k = 0; k < np; ++k) // an unused group of the same amount that BnB sorted earlier
+                                    if (!(m >> k & 1) && groups[pos[k]].amount == groups[pos[i]].amount && rank_in_order[k] < rank_in_order[i]) nn = true;
+                            }
+                            if (!e) all_e = false;
+                            if (!e && !nn) all_e_or_n = false;
+                        }
+                        class1 = any && all_e && eff_rate < lt_rate;
+                        class2 = any && !class1 && all_e_or_n && max_w < total_w_pos && bnb_order.size() == np;
+                    }
+                    std::vector<int> better_groups;
+                    for (size_t i = 0; i < np; ++i)
+                        if (better_mask >> i & 1) better_groups.push_back(pos[i]);
+                    std::vector<std::string> cj;
+                    for (const auto& cd : coins) cj.push_back("[" + std::to_string(cd.value) + "," + std::to_string(cd.bytes) + "," + std::to_string(cd.group) + "]");
+                    vh::log().violation(class1 ? "bnb-not-optimal-pool-has-waste-reducing-coin" : class2 ? "bnb-not-optimal-weight-limit-and-equal-amount-groups-of-different-weight" : "bnb-not-optimal",
                                         "BnB reports a complete search but a subset within the same window and weight limit has strictly lower waste",
                                         vh::J().i("waste", waste).i("best_waste", best_waste).i("target", target).i("cost_of_change", cost_of_change).i("max_weight", max_w).u("n", np)
-                                            .i("eff_feerate", eff_rate).i("lt_feerate", lt_rate).raw("selected_coins", IntArr(bnb.coins)));
+                                            .i("eff_feerate", eff_rate).i("lt_feerate", lt_rate).raw("selected_coins", IntArr(bnb.coins)).raw("better_groups", IntArr(better_groups))
+                                            .raw("coins_value_bytes_group", vh::JArr(cj)));
                 }
                 if (bnb_feasible && best_waste == waste) vh::log().obs("bnb_optimum_confirmed");
             }
@@ -450,6 +513,7 @@ VH_CMD(coinsel)
             return vh::J().b("done", s.completed).raw("coins", IntArr(s.coins)).done();
         };
         j.raw("bnb", run_bnb ? selj(bnb) : "null").raw("cg", selj(cg)).raw("srd", selj(srd)).raw("knap", selj(knap));
+        j.b("bnb_nonopt", bnb_nonopt);
         if (brute) j.b("bf_bnb", bnb_feasible).i("bf_waste", best_waste).b("bf_cg", cg_feasible).i("bf_weight", best_weight);
         const bool nt = brute && ((run_bnb && bnb.have && bnb.completed) || (cg.have && cg.completed));
         j.b("nt", nt);
